@@ -48,6 +48,9 @@ func main() {
 		of.Close()
 		bf.Close()
 		if *statsPath != "" {
+			for k, v := range envStats {
+				g.stats[k] += v
+			}
 			var ks []string
 			for k := range g.stats {
 				ks = append(ks, k)
